@@ -52,8 +52,8 @@ func drawExceptionChain(rt *rapid.T, maxDepth int) []ref.Exception {
 	var out []ref.Exception
 	for i := 0; i < n; i++ {
 		out = append(out, ref.Exception{
-			Code: rapid.OneOf(rapid.Int32Range(1, 1100), rapid.Int32()).Draw(rt, "code"),
-			Name: rapid.SampledFrom([]string{"DB::Exception", "DB::NetException", "", "std::exception"}).Draw(rt, "ename"),
+			Code:    rapid.OneOf(rapid.Int32Range(1, 1100), rapid.Int32()).Draw(rt, "code"),
+			Name:    rapid.SampledFrom([]string{"DB::Exception", "DB::NetException", "", "std::exception"}).Draw(rt, "ename"),
 			Message: rapid.SampledFrom([]string{"DB::Exception: Table x doesn't exist", "boom", "", "DB::NetException: \xff\xfe broken pipe"}).Draw(rt, "emsg"),
 			Stack:   rapid.SampledFrom([]string{"", "0. main()\n1. start()"}).Draw(rt, "estack"),
 		})
@@ -112,7 +112,9 @@ func runC13(rt *rapid.T, c c13case, st *stats.Collector) {
 			return Item{Kind: []string{"pong", "eos", "progress"}[c.clientRev%3]}.Encode(N, 0)
 		}}
 	case "garbage":
-		hello = simnet.Step{Name: "garbage", When: simnet.AfterHello, Bytes: func(*ref.ClientStream) []byte { return []byte{0xff, 0xff, 0xff, 0xff, 0xff, 0xff, 0xff, 0xff, 0xff, 0xff, 0x7f, 1, 2, 3} }}
+		hello = simnet.Step{Name: "garbage", When: simnet.AfterHello, Bytes: func(*ref.ClientStream) []byte {
+			return []byte{0xff, 0xff, 0xff, 0xff, 0xff, 0xff, 0xff, 0xff, 0xff, 0xff, 0x7f, 1, 2, 3}
+		}}
 	case "truncated-hello-cut":
 		inner := hello.Bytes
 		hello.Bytes = func(cs *ref.ClientStream) []byte { b := inner(cs); return b[:len(b)/2] }
